@@ -313,8 +313,7 @@ def main(run):
         worst = 0.0
         for g in range(N):
             Rg = L @ rots[g] @ Linv  # Cartesian rotation
-            pg = np.array([np.where(mapa[g] == a)[0][0] for a in range(n)])  # image of atom a: mapa[g][image] = a
-            # mapa[g][k] is the atom sent ONTO k, so atom a goes to pg[a]
+            pg = mapa[g]  # mapa[g][a] is the image of atom a: positions[mapa[g][a]] = R positions[a] + t
             rot_fc = np.einsum("ka,ijab,lb->ijkl", Rg, fc, Rg)
             worst = max(worst, np.abs(fc[np.ix_(pg, pg)] - rot_fc).max())
         if worst > 1e-8 * max(1.0, np.abs(fc0).max()):
